@@ -177,24 +177,22 @@ enum FormatComponent {
 /// The value of a directive under a precision, as C's printf has it: at least
 /// that many digits for the numbers (%d, %m: none at all for 0 under ".0"), at
 /// most that many characters for everything else.
-fn with_precision(directive: &FormatDirective, content: &str, precision: usize) -> String {
+/// (The zeros to write before it, and the value.)
+fn with_precision(directive: &FormatDirective, content: &str, precision: usize) -> (usize, String) {
     let number = matches!(
         directive,
         FormatDirective::Depth | FormatDirective::Permissions(PermissionsFormat::Octal)
     );
     if !number {
-        return content.chars().take(precision).collect();
+        return (0, content.chars().take(precision).collect());
     }
     if precision == 0 && content == "0" {
-        return String::new();
+        return (0, String::new());
     }
-    let zeros = precision.saturating_sub(content.chars().count());
-    // (by hand, like the blanks of a width: a precision can be large)
-    let mut padded = String::new();
-    for _ in 0..zeros.min(i32::MAX as usize) {
-        padded.push('0');
-    }
-    padded + content
+    (
+        precision.saturating_sub(content.chars().count()),
+        content.to_owned(),
+    )
 }
 
 struct FormatStringParser<'a> {
@@ -746,8 +744,18 @@ impl Printf {
                         } => (directive, width, justify, None),
                         _ => continue,
                     };
+                    let mut zeros = 0;
                     let content = match format_directive(file_info, directive) {
-                        Ok(content) => content,
+                        // (a precision applies to a value: not to a directive that
+                        // could not be rendered)
+                        Ok(content) => match precision {
+                            Some(precision) => {
+                                let (digits, text) = with_precision(directive, &content, precision);
+                                zeros = digits;
+                                text.into()
+                            }
+                            None => content,
+                        },
                         Err(e) => {
                             // The rest of the format is still written. (A diagnostic
                             // that cannot be written must not stop the walk.)
@@ -761,27 +769,29 @@ impl Printf {
                             Default::default()
                         }
                     };
-                    let content = match precision {
-                        Some(precision) => with_precision(directive, &content, precision).into(),
-                        None => content,
+                    // Padded by hand, and in pieces: the formatting machinery
+                    // refuses (panics on) widths above 65535, and a width or a
+                    // precision can be as large as a C int.
+                    let fill = |out: &mut dyn Write, mut count: usize, piece: &str| {
+                        while count > 0 {
+                            let n = count.min(piece.len());
+                            out.write_all(&piece.as_bytes()[..n])?;
+                            count -= n;
+                        }
+                        Ok::<(), std::io::Error>(())
                     };
-                    if let Some(width) = width {
-                        // Padded by hand: the formatting machinery refuses
-                        // (panics on) widths above 65535.
-                        let mut blanks = width.saturating_sub(content.chars().count());
-                        if matches!(justify, Justify::Left) {
-                            write!(out, "{content}")?;
-                        }
-                        while blanks > 0 {
-                            let n = blanks.min(64);
-                            write!(out, "{:n$}", "")?;
-                            blanks -= n;
-                        }
-                        if matches!(justify, Justify::Right) {
-                            write!(out, "{content}")?;
-                        }
-                    } else {
-                        write!(out, "{content}")?;
+                    const BLANKS: &str = "                                                                ";
+                    const ZEROS: &str = "0000000000000000000000000000000000000000000000000000000000000000";
+                    let blanks = width.map_or(0, |width| {
+                        width.saturating_sub(zeros.saturating_add(content.chars().count()))
+                    });
+                    if matches!(justify, Justify::Right) {
+                        fill(&mut out, blanks, BLANKS)?;
+                    }
+                    fill(&mut out, zeros, ZEROS)?;
+                    write!(out, "{content}")?;
+                    if matches!(justify, Justify::Left) {
+                        fill(&mut out, blanks, BLANKS)?;
                     }
                 }
             }
